@@ -5,5 +5,6 @@ CONSTANTS MaxNum = 3
   SEEKABLE = FALSE
   MaxOps = 4
   Threshold = 2
+  MaxMembers <- SmallMembers
 INVARIANTS RoundTrip UnwrittenNull OffsetsExact NoOverlap SizeCovers DeferredAfterStream ObjStmConsistent TrailerOK
 CHECK_DEADLOCK FALSE
